@@ -1,3 +1,5 @@
 import LouModel
 import LouProofs.Lemmas.PosMap
 import LouProofs.C07
+import LouProofs.Contract
+import LouProofs.C04
